@@ -89,6 +89,15 @@ def run(ctx):
             k = rng.randrange(lo, hi)
             t[k] = rng.choice([c for c in "gGzZ xX-+_.,:/@`é\x00" if c != t[k]])
             bad.append(("".join(t), None, cls))
+    # every non-hex ASCII character in the first, second and last position of r, s and v (number parsers accept '+', '-', '_',
+    # blanks in such places; a signature text does not), with and without the prefix
+    for ch in [chr(c_) for c_ in range(32, 127) if chr(c_) not in "0123456789abcdefABCDEF"]:
+        for pos in (2, 3, 65, 66, 67, 129, 130, 131):
+            t = list(base)
+            t[pos] = ch
+            bad.append(("".join(t), None, "corrupt/every-char-at-field-boundaries"))
+            if pos in (2, 66, 130):
+                bad.append(("".join(t)[2:], None, "corrupt/every-char-at-field-boundaries"))
     for v in (0, 1, 26, 29, 255, 0x1a, 0x35, 0x36):
         bad.append(("0x%064x%064x%02x" % (sigs[0][0], sigs[0][1], v), None, "bad-v"))
     NHI, NLO = N >> 128, N & ((1 << 128) - 1)
